@@ -429,6 +429,35 @@ def check(chk):
     srcs = " ".join(src(m.node) for m in am.methods.values())
     chk.ob("PAIR-7", "stopping an async mode cancels its running task", ".cancel()" in srcs and "_task" in srcs, am.where(), construct=am.ident,
            text="task cancelled")
+    # the game coroutine and the game mode end together: a stopped mode cancels the coroutine (whenever one runs), a finished
+    # coroutine stops the mode, the coroutine is started when the mode has started
+    from sa.helpers import inloop_guards  # noqa
+    from sa.cfg import canon_set, canon_fact
+    for nm in ("_stopped", "_stop_mode_on_machine_stop"):
+        m_ = am.methods.get(nm)
+        chk.need(m_ is not None, "PAIR-7", "AsyncMode.%s exists" % nm, sp_)
+        chk.analysed(m_)
+        mc = m_.cfg()
+        cn = [n for n, c in mc.calls_named("cancel") if src(c.func.value) == "self._task"]
+        fg = [n for n in mc.nodes if n.kind == "stmt" and isinstance(n.ast, ast.Assign) and src(n.ast.targets[0]) == "self._task" and src(n.ast.value) == "None"]
+        ok = len(cn) == 1 and len(fg) == 1 and set(canon_set(mc.guards_at(cn[0].id))) == {canon_fact("self._task", True)} and mc.dominates(cn[0].id, fg[0].id)
+        chk.ob("PAIR-7", "AsyncMode.%s cancels the coroutine whenever one is running, then forgets it" % nm, ok, m_.where(), construct=m_.ident,
+               text="%s cancels task" % nm)
+    st_ = am.methods.get("_started")
+    chk.need(st_ is not None, "PAIR-7", "AsyncMode._started exists", sp_)
+    chk.analysed(st_)
+    mk = [x for x in walk_local(st_.node) if isinstance(x, ast.Assign) and src(x.targets[0]) == "self._task" and "self._run()" in src(x.value)]
+    cb = [c for c in st_.calls() if call_attr(c) == "add_done_callback" and src(c.func.value) == "self._task" and [src(a) for a in c.args] == ["self._mode_ended"]]
+    chk.ob("PAIR-7", "a started async mode runs its coroutine as a task whose end is observed", len(mk) == 1 and len(cb) == 1, st_.where(), construct=st_.ident,
+           text="task created and observed")
+    me_ = am.methods.get("_mode_ended")
+    chk.need(me_ is not None, "PAIR-7", "AsyncMode._mode_ended exists", sp_)
+    chk.analysed(me_)
+    mec = me_.cfg()
+    stp = [n for n, c in mec.calls_named("stop") if src(c.func.value) == "self"]
+    ok = len(stp) == 1 and mec.must_pass(mec.entry.id, [stp[0].id], ignore_exc=True) is None and any(call_attr(c) == "result" for c in me_.calls())
+    chk.ob("PAIR-7", "when the coroutine ends (or fails) the mode is stopped and a failure is raised, not swallowed", ok, me_.where(), construct=me_.ident,
+           text="coroutine end stops mode")
     eg_ = repo.func(GM, G + "._end_game")
     last = [n for n in eg_.cfg().nodes_where(lambda n: n.kind == "stmt") if "game_ended" in n.text(200)]
     chk.ob("PAIR-7", "game_ended is the last thing the game run posts", bool(last), eg_.where(), construct=eg_.ident, text="game_ended last")
@@ -490,6 +519,9 @@ def battery():
         M("twin: end decision via helper locals after turn end", GM, "            await self._end_player_turn()\n\n            if self.slam_tilted or self.player.ball >= self.balls_per_game and self.player.number == self.num_players:", "            await self._end_player_turn()\n\n            if self.slam_tilted or (self.player.ball >= self.balls_per_game and self.player.number == self.num_players):", None),
         M("twin: debug log added", GM, "        self.debug_log(\"Game started\")", "        self.debug_log(\"Game started!\")", None),
         M("game end does not wait for a game mode that is already stopping", GM, "            if mode.is_game_mode and mode.active:\n                self._stopping_modes.append(mode)", "            if mode.is_game_mode and mode.active and not mode.stopping:\n                self._stopping_modes.append(mode)", "PAIR-7"),
+        M("stopped game mode leaves its coroutine running", "mpf/core/async_mode.py", "        super()._stopped()\n\n        if self._task:\n            self._task.cancel()\n            self._task = None", "        super()._stopped()", "PAIR-7"),
+        M("finished coroutine does not stop the mode", "mpf/core/async_mode.py", "        # stop mode\n        self.stop()", "        # stop mode\n        pass", "PAIR-7"),
+        M("coroutine failures swallowed", "mpf/core/async_mode.py", "            future.result()\n        except asyncio.CancelledError:", "            pass\n        except asyncio.CancelledError:", "PAIR-7"),
     ]
 
 
